@@ -198,8 +198,47 @@ def register(R):
 
     R.add_fields('s3transfer.utils:CallArgs')
     R.builtin_models['awscrt.s3.S3ChecksumConfig'] = lambda eng, st, args, kwargs, line: [__import__('pyvc.engine', fromlist=['ok']).ok(Opaque('checksum_config'), st)]
-    R.contract(f'{ARGS}._default_get_make_request_args',
-               params=dict(request_type=Str, call_args=Any, coordinator=Any, future=Any, on_done_before_calls=Any, on_done_after_calls=Any),
+    # awscrt.s3.S3RequestType (assumed: members DEFAULT, GET_OBJECT, PUT_OBJECT as in awscrt; anything else is absent)
+    R.ext_values['awscrt.s3.S3RequestType'] = Opaque('S3RequestType', kind='crt_enum')
+    members = {n: Opaque('S3RequestType.' + n, kind='crt_enum_member') for n in ('DEFAULT', 'GET_OBJECT', 'PUT_OBJECT')}
+    spec = {}
+    for n, v in members.items():
+        spec['.' + n] = ExtSpec(returns=lambda eng, st, recv, a, k, v=v: v, pure=True)
+        spec['hasattr:' + n] = ExtSpec(returns=True, pure=True)
+    spec['hasattr:DELETE_OBJECT'] = ExtSpec(returns=False, pure=True)
+    R.external('crt_enum', **spec)
+
+    # signing details (MRAP access points, S3 Express) are outside the properties: assumed interfaces
+    ARNH = f'{CRT}:_S3ArnParamHandler'
+    R.add_fields(ARNH)
+    R.contract(f'{ARNH}.__init__', params={}, events=False)
+    R.contract(f'{ARNH}.handle_arn', params=dict(bucket=Any), returns=OptT(ExtT('arn_details')), events=False)
+    R.external('arn_details', **{'[]': ExtSpec(returns=ExtT('str'), pure=True)})
+    R.builtin_models['botocore.utils.is_s3express_bucket'] = lambda eng, st, args, kwargs, line: [__import__('pyvc.engine', fromlist=['ok']).ok(
+        eng.opaque_pred(args[0], 'is_s3express_bucket') if isinstance(args[0], Opaque) else False, st)]
+    R.builtin_models['awscrt.auth.AwsSigningConfig'] = lambda eng, st, args, kwargs, line: [__import__('pyvc.engine', fromlist=['ok']).ok(Opaque('signing_config'), st)]
+    R.ext_values['awscrt.auth.AwsSigningAlgorithm'] = Opaque('AwsSigningAlgorithm', kind='crt_alg_enum')
+    R.external('crt_alg_enum', **{'.V4_ASYMMETRIC': ExtSpec(returns=ExtT('crt_alg'), pure=True), '.V4_S3EXPRESS': ExtSpec(returns=ExtT('crt_alg'), pure=True)})
+
+    def dgmra_checks(c):
+        # the request's on_done is the composed callback built from THIS request's before-list, the subscribers' on_done and
+        # the after-list (permit release, done-callbacks complete); its on_progress is the subscribers' on_progress
+        res = c.new.obj(c.result).items if isinstance(c.result, Ref) and c.new.obj(c.result).kind == 'dict' else {}
+
+        def composed(v, ctype, before, after):
+            return isinstance(v, Closure) and v.env.get('callback_type') == ctype and v.env.get('future') is c.a_future \
+                and v.env.get('before_subscribers') is before and v.env.get('after_subscribers') is after
+        ser = exts(c.trace, 'serializer.serialize_http_request')
+        return {'on_done_is_composed_from_this_requests_before_list_subscribers_and_after_list': (B(bool(
+            composed(res.get('on_done'), 'done', c.a_on_done_before_calls, c.a_on_done_after_calls))), ['C20']),
+            'on_progress_is_the_subscribers_progress_callback': (B(bool(composed(res.get('on_progress'), 'progress', None, None))), ['C20']),
+            'request_is_serialized_for_this_operation_and_future': (B(len(ser) == 1 and ser[0].args == (c.a_request_type, c.a_future)
+                                                                      and res.get('request') is ser[0].result), ['C20'])}
+
+    R.contract(f'{ARGS}._default_get_make_request_args', props=['C20'], checks=dgmra_checks, raises={'Exception': only_propagates},
+               param_alternatives={'request_type': [(t, Const(t)) for t in ('get_object', 'put_object', 'delete_object')]},
+               params=dict(request_type=Str, call_args=ObjT('s3transfer.utils:CallArgs'), coordinator=Any, future=ExtT('crt_future'),
+                           on_done_before_calls=ExtT('before_list'), on_done_after_calls=ExtT('after_list')),
                returns=lambda c, st: st.alloc(HObj('dict', items={'request': Opaque('req'), 'on_done': Opaque('on_done')})),
                raise_when={'Exception': lambda c: None})
     R.contract(f'{ARGS}._get_make_request_args_get_object', props=['C20', 'C06'],
